@@ -25,6 +25,8 @@ def headers_for(rng, alg, kind):
     """(protected, unprotected) header placements."""
     b64 = {"b64": False, "crit": ["b64"]} if kind in ("c7797", "j7797") and rng.random() < 0.8 else {}
     extra = rng.choice([{}, {"typ": "JWT"}, {"kid": "k-1"}, {"cty": "x", "typ": "é"}, {"x5c": ["a"]}])
+    if rng.random() < 0.2:
+        extra = copy.deepcopy(rng.choice(J.rich_headers()))
     prot = {"alg": alg, **b64, **extra}
     unprot = None
     if kind in ("flat", "general", "j7797") and rng.random() < 0.5:
